@@ -371,3 +371,6 @@ Proof.
   intros H Hin. pose proof (exactly_once ths sched H) as P. cbv zeta in P.
   apply (Permutation_in e (Permutation_sym P)). rewrite !in_app_iff. auto.
 Qed.
+
+Lemma reachable_run ths sched : forallb env_pc ths = true -> reachable (run sched (init ths)).
+Proof. intros H. exists ths, sched. split; [exact H|reflexivity]. Qed.
